@@ -42,7 +42,7 @@ RULE = ("random force fields (1-3 blocks of 1-4 atoms in .ff or polyply .itp syn
         "trees, one ring; 1-7 residues quick, up to 10 thorough; mixed resnames; labelled edges; resids along the "
         "graph or permuted; shuffled node insertion); a case is non-trivial when at least one link application is "
         "accepted; distinct = distinct abstract case")
-WITHHELD_SHAPES = ("removed-atom-key-equals-version", "link-without-resname-skipped")
+WITHHELD_SHAPES = ("link-without-resname-skipped",)
 
 
 # ------------------------------------------------------------------------------------------ real pipeline
@@ -69,6 +69,39 @@ def drop_resid(atoms):
     return [[key, [kv for kv in attrs if kv[0] != "resid"]] for key, attrs in atoms]
 
 
+def compare_with_spec(impl, spec, removed):
+    """differences between the real output and a specification output, as (shape, text) pairs"""
+    impl_ix = {(i[0], tuple(i[1]), i[2]): (i[3], i[4]) for i in impl["ixns"]}
+    spec_ix = {(i[0], tuple(i[1]), i[2]): (i[3], i[4]) for i in spec["ixns"]}
+    failures = []
+    for key in sorted(set(spec_ix) - set(impl_ix)):
+        if removed and key[2] in removed and not any(a in removed for a in key[1]):
+            failures.append(("removed-atom-key-equals-version",
+                             "interaction %s %s (version %d) is missing although none of its atoms was removed: a link "
+                             "removed the atom with node key %d, which equals the version number" % (key[0], list(key[1]), key[2], key[2])))
+        else:
+            failures.append(("link-interaction-missing", "interaction %s %s version %d with parameters %s is required by a "
+                             "matching link (or block) but absent" % (key[0], list(key[1]), key[2], spec_ix[key][0])))
+    for key in sorted(set(impl_ix) - set(spec_ix)):
+        failures.append(("interaction-without-matching-link", "interaction %s %s version %d %s is present but no block or "
+                         "matching link defines it" % (key[0], list(key[1]), key[2], impl_ix[key][0])))
+    for key in sorted(set(impl_ix) & set(spec_ix)):
+        if impl_ix[key] != spec_ix[key]:
+            failures.append(("wrong-parameters", "interaction %s %s version %d carries %s, the last matching definition says %s"
+                             % (key[0], list(key[1]), key[2], impl_ix[key], spec_ix[key])))
+    if impl["edges"] != spec["edges"]:
+        extra = [e for e in impl["edges"] if e not in spec["edges"]]
+        missing = [e for e in spec["edges"] if e not in impl["edges"]]
+        failures.append(("edge-mismatch", "bond edges differ from those of block + matching links: extra %s missing %s" % (extra, missing)))
+    a_impl = drop_resid(impl["atoms"]) if removed else impl["atoms"]
+    a_spec = drop_resid(spec["atoms"]) if removed else spec["atoms"]
+    if a_impl != a_spec:
+        diff = [(x, y) for x, y in zip(a_impl, a_spec) if x != y][:3]
+        failures.append(("attribute-mismatch", "atom attributes differ from block attributes + replacements of matching "
+                         "links (atoms present: %d, expected %d): %s" % (len(a_impl), len(a_spec), diff)))
+    return failures
+
+
 # ------------------------------------------------------------------------------------------ main stream
 
 def judge_main(ctx, case, inp, impl, apply_ans, spec_ans, known_shapes, stream="main"):
@@ -87,43 +120,19 @@ def judge_main(ctx, case, inp, impl, apply_ans, spec_ans, known_shapes, stream="
     model = canon_model(apply_ans["out"])
     ctx.correspond("applyLinks", impl, model, replay)
     ctx.traces += 1
-    spec = canon_model(spec_ans["out"])
     removed = apply_ans["out"]["removed"]
-    # ---- oracle: the property's statement on the real output
-    impl_ix = {(i[0], tuple(i[1]), i[2]): (i[3], i[4]) for i in impl["ixns"]}
-    spec_ix = {(i[0], tuple(i[1]), i[2]): (i[3], i[4]) for i in spec["ixns"]}
-    failures = []
-    no_resname = any(not any(k == "resname" for atom in link["atoms"] for k, _t in atom["attrs"]) for link in inp["links"])
-    for key in sorted(set(spec_ix) - set(impl_ix)):
-        if no_resname:
-            failures.append(("link-without-resname-skipped", "interaction %s %s is required by a matching link none of whose "
-                             "atoms names a residue; the code never considers such a link" % (key[0], list(key[1]))))
-        elif removed and key[2] in removed and not any(a in removed for a in key[1]):
-            failures.append(("removed-atom-key-equals-version",
-                             "interaction %s %s (version %d) is missing although none of its atoms was removed: a link "
-                             "removed the atom with node key %d, which equals the version number" % (key[0], list(key[1]), key[2], key[2])))
-        else:
-            failures.append(("link-interaction-missing", "interaction %s %s version %d with parameters %s is required by a "
-                             "matching link (or block) but absent" % (key[0], list(key[1]), key[2], spec_ix[key][0])))
-    for key in sorted(set(impl_ix) - set(spec_ix)):
-        failures.append(("interaction-without-matching-link", "interaction %s %s version %d %s is present but no block or "
-                         "matching link defines it" % (key[0], list(key[1]), key[2], impl_ix[key][0])))
-    for key in sorted(set(impl_ix) & set(spec_ix)):
-        if impl_ix[key] != spec_ix[key]:
-            failures.append(("wrong-parameters", "interaction %s %s version %d carries %s, the last matching definition says %s"
-                             % (key[0], list(key[1]), key[2], impl_ix[key], spec_ix[key])))
-    if no_resname and (impl["edges"] != spec["edges"] or impl["atoms"] != spec["atoms"]):
-        failures.append(("link-without-resname-skipped", "edges / attributes of a matching link without residue names are missing"))
-    elif impl["edges"] != spec["edges"]:
-        extra = [e for e in impl["edges"] if e not in spec["edges"]]
-        missing = [e for e in spec["edges"] if e not in impl["edges"]]
-        failures.append(("edge-mismatch", "bond edges differ from those of block + matching links: extra %s missing %s" % (extra, missing)))
-    a_impl = drop_resid(impl["atoms"]) if removed else impl["atoms"]
-    a_spec = drop_resid(spec["atoms"]) if removed else spec["atoms"]
-    if a_impl != a_spec and not no_resname:
-        diff = [(x, y) for x, y in zip(a_impl, a_spec) if x != y][:3]
-        failures.append(("attribute-mismatch", "atom attributes differ from block attributes + replacements of matching "
-                         "links (atoms present: %d, expected %d): %s" % (len(a_impl), len(a_spec), diff)))
+    # ---- oracle: the property's statement on the real output.  Two readings of "a link of the force field":
+    # `out` = every link (the property); `out_prefilter` = the links the code's residue-name pre-filter keeps.
+    # They differ only when a link has no residue name at all (shape link-without-resname-skipped).
+    failures = compare_with_spec(impl, canon_model(spec_ans["out"]), removed)
+    if failures and "out_prefilter" in spec_ans:
+        narrowed = compare_with_spec(impl, canon_model(spec_ans["out_prefilter"]), removed)
+        no_resname = any(not any(k == "resname" for atom in link["atoms"] for k, _t in atom["attrs"]) for link in inp["links"])
+        if not narrowed and no_resname:
+            failures = [("link-without-resname-skipped", "a link none of whose atoms names a residue matches (pattern, orders, atoms) "
+                         "but is never considered by the code; first consequence: " + failures[0][1])]
+        elif narrowed:
+            failures = narrowed
     seen = set()
     for shape, what in failures:
         if shape in seen:
